@@ -58,6 +58,8 @@ def check_case(case: dict) -> Result:
         return _check_tolerance(case)
     if kind == "sam-scale":
         return _check_sam_scale(case)
+    if kind == "wide":
+        return _check_wide(case)
     raise ValueError(kind)
 
 
@@ -158,6 +160,41 @@ def _check_coalitions_light(n: int) -> Result:
     res.label(f"coalitions-light n={n}")
     res.labels.append(f"coalitions-checked={1 << n}")
     return res
+
+
+def _check_wide(case: dict) -> Result:
+    """The object representation on ids of up to 40 bits (the regret minimiser uses coalitions over 25 'players', nothing in
+    the class limits the width): players, len, membership, operators against frozensets."""
+    from incomplete_cooperative.coalitions import Coalition, disjoint_coalitions
+    res = Result()
+    a, b, n = case["a"], case["b"], case["n"]
+    ca, cb, fa, fb = Coalition(a), Coalition(b), _fs(a), _fs(b)
+    if list(ca.players) != sorted(fa) or len(ca) != len(fa):
+        res.fail(f"wide-players/len :: id {a}: players {list(ca.players)}, len {len(ca)}; the set is {sorted(fa)}")
+    if Coalition.from_players(sorted(fa)).id != a:
+        res.fail(f"wide-from_players :: id {a}")
+    if _fs((ca | cb).id) != fa | fb or _fs((ca & cb).id) != fa & fb or _fs((ca - cb).id) != fa - fb:
+        res.fail(f"wide-operators :: ids {a}, {b}")
+    if (cb in ca) != (fb <= fa) or disjoint_coalitions(ca, cb) != (not (fa & fb)):
+        res.fail(f"wide-containment :: ids {a}, {b}")
+    for p in case["players"]:
+        if (p in ca) != (p in fa) or _fs((ca + p).id) != fa | {p} or _fs((ca - p).id) != fa - {p}:
+            res.fail(f"wide-player-ops :: id {a} player {p}")
+    if _fs(ca.inverted(n).id) != frozenset(range(n)) - fa:
+        res.fail(f"wide-inverted :: id {a} n={n}")
+    res.nontrivial = a >= 1 << 16
+    res.label("wide", f"bits>={(max(a, 1).bit_length() // 8) * 8}")
+    return res
+
+
+@st.composite
+def wide_cases(draw):
+    n = draw(st.sampled_from([12, 16, 17, 20, 24, 25, 32, 40]))
+    a = draw(st.integers(0, (1 << n) - 1))
+    b = draw(st.integers(0, (1 << n) - 1))
+    if draw(st.booleans()):
+        a |= 1 << (n - 1)
+    return {"kind": "wide", "n": n, "a": a, "b": b, "players": draw(st.lists(st.integers(0, n - 1), min_size=1, max_size=4))}
 
 
 def _check_pairs(n: int) -> Result:
@@ -459,7 +496,8 @@ def plan(tier: str) -> list[dict]:
                  {"mode": "enum", "cases": [{"kind": "lattice", "L": 1, "top": t} for t in (-1, 0, 1)], "cost": 3},
                  {"mode": "enum", "cases": [{"kind": "lattice4", "values": [0, 1]}], "cost": 3},
                  {"mode": "games", "n": 4, "examples": 300, "cost": 2}, {"mode": "games", "n": 5, "examples": 100, "cost": 2},
-                 {"mode": "tol", "n": 4, "examples": 80, "cost": 1}, {"mode": "samscale", "n": 4, "examples": 200, "cost": 1}])
+                 {"mode": "tol", "n": 4, "examples": 80, "cost": 1}, {"mode": "samscale", "n": 4, "examples": 200, "cost": 1},
+                 {"mode": "wide", "examples": 400, "cost": 1}])
     return ([{"mode": "enum", "cases": [{"kind": "coalitions", "n": n} for n in range(1, 9)] + [{"kind": "helpers", "n": n} for n in range(1, 10)], "cost": 3},
              {"mode": "enum", "cases": [{"kind": "coalitions", "n": 9}], "cost": 8},
              {"mode": "enum", "cases": [{"kind": "coalitions-light", "n": n} for n in (11, 12, 13)], "cost": 6},
@@ -472,7 +510,8 @@ def plan(tier: str) -> list[dict]:
             + [{"mode": "games", "n": 4, "examples": 15000, "cost": 6} for _ in range(3)]
             + [{"mode": "games", "n": 5, "examples": 4000, "cost": 6} for _ in range(3)]
             + [{"mode": "tol", "n": 4, "examples": 800, "cost": 3}, {"mode": "tol", "n": 5, "examples": 300, "cost": 3},
-               {"mode": "samscale", "n": 4, "examples": 3000, "cost": 3}, {"mode": "samscale", "n": 5, "examples": 800, "cost": 3}])
+               {"mode": "samscale", "n": 4, "examples": 3000, "cost": 3}, {"mode": "samscale", "n": 5, "examples": 800, "cost": 3},
+               {"mode": "wide", "examples": 20000, "cost": 3}])
 
 
 def run_shard(spec: dict, ctx: Ctx) -> None:
@@ -484,6 +523,8 @@ def run_shard(spec: dict, ctx: Ctx) -> None:
         ctx.extra["exhaustive_parts"] = parts
     elif spec["mode"] == "games":
         ctx.run_given(pred_games(spec["n"]), check_case, spec["examples"])
+    elif spec["mode"] == "wide":
+        ctx.run_given(wide_cases(), check_case, spec["examples"])
     elif spec["mode"] == "samscale":
         ctx.run_given(sam_scale_cases(spec["n"]), check_case, spec["examples"])
     else:
